@@ -629,6 +629,7 @@ func (in *Interp) assertOb(c *smt.Term, ob, finding string, class *smt.Term) {
 		return
 	}
 	known := finding != "" && in.cfg.Known[finding]
+	in.expose(c, class)
 	if c.IsTrue() {
 		in.res.Stats.TrivialAssert++
 		in.res.Discharged[ob]++
@@ -763,14 +764,7 @@ func (in *Interp) bytesEqual(a, b value) *smt.Term {
 		return in.ctx.Eq(bb.t, in.bytesToBigStrict(a))
 	}
 	x, y := in.byteTerms(a), in.byteTerms(b)
-	if len(x) != len(y) {
-		return in.ctx.False()
-	}
-	var cs []*smt.Term
-	for i := range x {
-		cs = append(cs, in.ctx.Eq(x[i], y[i]))
-	}
-	return in.ctx.And(cs...)
+	return in.eqByteTerms(x, y)
 }
 
 // bytesToBigStrict: for comparing a minimal-length big image with explicit bytes: equal iff
@@ -800,8 +794,18 @@ func (in *Interp) bytesCompare(x, y []*smt.Term) *smt.Term {
 	} else if len(x) > len(y) {
 		res = p1
 	}
-	for i := n - 1; i >= 0; i-- {
-		res = c.Ite(c.BVUlt(x[i], y[i]), m1, c.Ite(c.Eq(x[i], y[i]), res, p1))
+	// common prefix: skip syntactically identical leading bytes, compare the rest as ONE wide unsigned number
+	// (big-endian concatenation) — one bvult instead of a 32-deep ite chain for hash-sized keys
+	lo := 0
+	for lo < n && x[lo] == y[lo] {
+		lo++
+	}
+	if lo < n {
+		X, Y := x[lo], y[lo]
+		for i := lo + 1; i < n; i++ {
+			X, Y = c.Concat(X, x[i]), c.Concat(Y, y[i])
+		}
+		res = c.Ite(c.BVUlt(X, Y), m1, c.Ite(c.Eq(X, Y), res, p1))
 	}
 	return res
 }
@@ -894,6 +898,7 @@ type hashApp struct {
 	n      int
 	input  *smt.Term
 	output *smt.Term
+	parts  []*smt.Term // the input bytes
 }
 
 var hashNamed = types.NewNamed(types.NewTypeName(token.NoPos, nil, "gosymHash", nil), types.NewStruct(nil, nil), nil)
@@ -951,7 +956,7 @@ func (in *Interp) hashSum(h *hashState) sliceV {
 		if n > 0 {
 			inp = c.BV(new(big.Int).SetBytes(bs), 8*n)
 		}
-		in.recordHash(&hashApp{n: n, input: inp, output: c.BV(new(big.Int).SetBytes(d[:]), 256)})
+		in.recordHash(&hashApp{n: n, input: inp, output: c.BV(new(big.Int).SetBytes(d[:]), 256), parts: append([]*smt.Term{}, h.parts...)})
 		return out
 	}
 	inp := h.parts[0]
@@ -963,32 +968,29 @@ func (in *Interp) hashSum(h *hashState) sliceV {
 	for i := range out {
 		out[i] = c.Extract(o, 255-8*i, 248-8*i)
 	}
-	in.recordHash(&hashApp{n: n, input: inp, output: o})
+	in.recordHash(&hashApp{n: n, input: inp, output: o, parts: append([]*smt.Term{}, h.parts...)})
 	return out
 }
 
 func (in *Interp) recordHash(a *hashApp) {
-	c := in.ctx
 	for _, b := range in.hashApps {
 		if b.input == a.input && b.n == a.n {
 			return
 		}
 	}
-	if !a.output.IsConst() {
-		// preimage resistance for the all-zero digest (aergo uses 32 zero bytes as "no hash")
-		in.addLemma(c.Not(c.Eq(a.output, c.BV(big.NewInt(0), 256))))
-	}
-	for _, b := range in.hashApps {
-		if a.output.IsConst() && b.output.IsConst() {
-			continue
-		}
-		if a.n == b.n {
-			in.addLemma(c.Implies(c.Eq(a.output, b.output), c.Eq(a.input, b.input)))
-		} else {
-			in.addLemma(c.Not(c.Eq(a.output, b.output)))
-		}
-	}
 	in.hashApps = append(in.hashApps, a)
+	if in.hashOut == nil {
+		in.hashOut = map[int]*hashApp{}
+	}
+	in.hashOut[a.output.ID] = a
+	// lemmas are instantiated lazily, when the digest reaches the solver (intr_hashlazy.go); a real digest
+	// (concrete input) is a constant and counts as exposed from the start
+	if a.output.IsConst() && in.cfg.Concrete == nil {
+		for _, l := range in.exposeApp(a) {
+			in.expose(l)
+			in.addLemma(l)
+		}
+	}
 }
 
 // ---------------------------------------------------------------- sort (insertion sort driving the real Less)
